@@ -377,6 +377,18 @@ def h_list(I, st, fv, args, kwargs, ctx):
 
 
 def h_dict(I, st, fv, args, kwargs, ctx):
+    if "$symbolic_kwargs" in kwargs and args and isinstance(args[0], Ref) and st.heap[args[0].oid].kind == "dict" \
+            and isinstance(kwargs["$symbolic_kwargs"], Ref) \
+            and st.heap[kwargs["$symbolic_kwargs"].oid].fields.get("$entries") is not None and len(kwargs) == 1:
+        # dict(a, **b) where b was built from empty by stores: a copy of a, then b's entries stored
+        src = st.heap[args[0].oid]
+        r = I.alloc_dict(st, keys=src.keys, vals=src.vals, ckeys=None if src.ckeys is None else list(src.ckeys))
+        for f, v in src.fields.items():
+            if f != "$entries":
+                st.heap[r.oid].fields[f] = v
+        for (k, v) in st.heap[kwargs["$symbolic_kwargs"].oid].fields["$entries"]:
+            I.dict_store(st, r, k, v)
+        return [(st, r)]
     if "$symbolic_kwargs" in kwargs:
         # dict(a, **b) with a symbolic b: a fresh dict about which nothing is assumed (sound
         # over-approximation of the union)
